@@ -23,7 +23,7 @@ package throttle
 //@ pred (t *ThrottledRecorder) TInv() :=
 //@      !isnil(t.recorder) && ref(t.recorder) != 0 && !isnil(t.listener) && t.bucket != nil
 //@   && t.recording == t.recorder.open
-//@   && t.bucket.availableTokens >= 0
+//@   && t.bucket.binv() && !isnil(t.bucket.clock)
 //@   && (t.recording ==> t.recorder.inFile + t.bucket.availableTokens >= t.minRecordingLength)
 
 //@ func (throttler *ThrottledRecorder) CheckCanRecord
@@ -32,7 +32,7 @@ package throttle
 
 //@ func (throttler *ThrottledRecorder) maybeStartRecording
 //@   requires throttler != nil && throttler.TInv() && !throttler.recording
-//@   modifies throttler.recording, throttler.bucket.availableTokens, throttler.bucket.latestTick
+//@   modifies throttler.recording, throttler.bucket.availableTokens, throttler.bucket.latestTick, throttler.bucket.gLastAdj, throttler.bucket.gEarned
 //@   modifies throttler.recorder.open, throttler.recorder.inFile, throttler.recorder.wfault, throttler.recorder.starts, throttler.recorder.startOK, throttler.recorder.bg, throttler.recorder.thresh
 //@   ensures throttler.TInv() && throttler.bucket.availableTokens >= old(throttler.bucket.availableTokens)
 //@   ensures [C06] throttler.bucket.availableTokens >= throttler.minRecordingLength ==> (result == nil) == old(throttler.recorder.startOK) && throttler.recording == old(throttler.recorder.startOK) && throttler.recorder.starts == old(throttler.recorder.starts) + (old(throttler.recorder.startOK) ? 1 : 0)
@@ -42,7 +42,7 @@ package throttle
 
 //@ func (throttler *ThrottledRecorder) StartRecording
 //@   requires throttler != nil && throttler.TInv() && !throttler.recording
-//@   modifies throttler.recording, throttler.backgroundFrame, throttler.tempThresh, throttler.bucket.availableTokens, throttler.bucket.latestTick, throttler.listener.events
+//@   modifies throttler.recording, throttler.backgroundFrame, throttler.tempThresh, throttler.bucket.availableTokens, throttler.bucket.latestTick, throttler.bucket.gLastAdj, throttler.bucket.gEarned, throttler.listener.events
 //@   modifies throttler.recorder.open, throttler.recorder.inFile, throttler.recorder.wfault, throttler.recorder.starts, throttler.recorder.startOK, throttler.recorder.bg, throttler.recorder.thresh
 //@   ensures throttler.TInv()
 //@   ensures [C06] throttler.bucket.availableTokens >= throttler.minRecordingLength ==> (result == nil) == old(throttler.recorder.startOK) && throttler.recording == old(throttler.recorder.startOK) && throttler.recorder.starts == old(throttler.recorder.starts) + (old(throttler.recorder.startOK) ? 1 : 0) && throttler.listener.events == old(throttler.listener.events)
@@ -62,11 +62,12 @@ package throttle
 
 //@ func (throttler *ThrottledRecorder) WriteFrame
 //@   requires throttler != nil && throttler.TInv()
-//@   modifies throttler.recording, throttler.bucket.availableTokens, throttler.bucket.latestTick, throttler.bucket.gTaken, throttler.listener.events
+//@   modifies throttler.recording, throttler.bucket.availableTokens, throttler.bucket.latestTick, throttler.bucket.gLastAdj, throttler.bucket.gEarned, throttler.bucket.gTaken, throttler.bucket.gSince, throttler.listener.events
 //@   modifies throttler.recorder.open, throttler.recorder.inFile, throttler.recorder.wfault, throttler.recorder.starts, throttler.recorder.startOK, throttler.recorder.bg, throttler.recorder.thresh
 //@   modifies throttler.recorder.next, throttler.recorder.first, throttler.recorder.writes, throttler.recorder.stops, throttler.recorder.stopOK
 //@   ensures throttler.TInv()
 //@   ensures [C05] throttler.recorder.writes - old(throttler.recorder.writes) == throttler.bucket.gTaken - old(throttler.bucket.gTaken) && (throttler.bucket.gTaken == old(throttler.bucket.gTaken) || throttler.bucket.gTaken == old(throttler.bucket.gTaken) + 1)
+//@   ensures [C05] throttler.recorder.writes - old(throttler.recorder.writes) == throttler.bucket.gSince - old(throttler.bucket.gSince) && throttler.bucket.gSince <= throttler.bucket.capacity + 1 + throttler.bucket.gEarned
 //@   ensures [C06] ncalls("WriteFrame") <= 1 && (ncalls("WriteFrame") == 1 ==> callarg("WriteFrame", 1, 1) == frame && result == callres("WriteFrame", 1))
 //@   ensures [C06] throttler.recorder.writes != old(throttler.recorder.writes) ==> ncalls("WriteFrame") == 1 && throttler.listener.events == old(throttler.listener.events) && throttler.recorder.stops == old(throttler.recorder.stops) && throttler.recording
 //@   ensures [C06] old(throttler.recording) ==> throttler.recorder.starts == old(throttler.recorder.starts)
